@@ -52,7 +52,11 @@ pub const BROKEN_PATTERNS: [&str; 30] = [
 /// dependency strings, numbers, booleans, list/command syntax of the other file
 /// formats, URL-ish and shell-ish text).  A store that must keep values verbatim
 /// is tried with each of them.
-pub const TYPED_VALUES: [&str; 102] = [
+pub const TYPED_VALUES: [&str; 110] = [
+    // "<algorithm> <digest>" with a digest of exactly the algorithm's length (a sibling parser could "canonicalise" these)
+    "sha1 da39a3ee5e6b4b0d3255bfef95601890afd80709", "SHA1 DA39A3EE5E6B4B0D3255BFEF95601890AFD80709", "md5 d41d8cd98f00b204e9800998ecf8427e", "rmd160 9c1185a5c5e9fc54612808977ee8f548b2258d31",
+    "sha256 e3b0c44298fc1c149afbf4c8996fb92427ae41e4649b934ca495991b7852b855", "blake2s 69217a3079908094e11121d042354a7c1f55b6482ca1a51e1b250dfd1ed0eef9",
+    "Sha1 (f.tgz) = da39a3ee5e6b4b0d3255bfef95601890afd80709", "sha1  da39a3ee5e6b4b0d3255bfef95601890afd80709",
     // one item named twice (a store that "tidies" lists would drop the repeat)
     "a b a", "x x", "inet6 ssl inet6", "a,b,a", "-x -x", "a  a",
     // package paths
